@@ -95,11 +95,40 @@ def ensure_coq_makefile():
             raise RuntimeError("coq_makefile failed: " + out)
 
 
-def scan_forbidden():
-    """Return list of (file, line, text) of forbidden tokens anywhere in the Coq development."""
+def dep_closure(roots):
+    """Transitive closure of `Require`d CV.* files starting from the given theories/...v paths."""
+    seen, todo = set(), list(roots)
+    while todo:
+        rel = todo.pop()
+        if rel in seen:
+            continue
+        path = os.path.join(COQ, rel)
+        if not os.path.exists(path):
+            continue
+        seen.add(rel)
+        src = open(path, errors="replace").read()
+        for sent in re.split(r"\.(?:\s|$)", src):
+            sent = sent.strip()
+            m = re.search(r"(?:^|\n|\*\))\s*(?:From\s+(\S+)\s+)?Require\s+(?:Import\s+|Export\s+)?(.*)$", sent, re.S)
+            if not m:
+                continue
+            prefix = m.group(1)
+            for name in m.group(2).split():
+                if prefix == "CV":
+                    todo.append("theories/" + name.replace(".", "/") + ".v")
+                elif prefix is None and name.startswith("CV."):
+                    todo.append("theories/" + name[3:].replace(".", "/") + ".v")
+    return seen
+
+
+def scan_forbidden(only=None):
+    """Return list of (file, line, text) of forbidden tokens in the Coq development
+    (restricted to the files in `only`, relative to coq/, when given)."""
     hits = []
     for v in glob.glob(os.path.join(COQ, "theories", "**", "*.v"), recursive=True):
         if "/Cases/" in v:
+            continue
+        if only is not None and os.path.relpath(v, COQ) not in only:
             continue
         src = open(v, errors="replace").read()
         # strip comments (non-nested approximation is unsafe; do nested)
@@ -157,11 +186,17 @@ class Ctx:
         named stdlib axioms). Returns dict(ok, obligations, discharged, axioms, log)."""
         props_file = props_file or ("theories/Properties/%s.v" % self.pid)
         res = {"ok": False, "obligations": 0, "discharged": 0, "axioms": {}, "log": "", "theorems": []}
-        hits = scan_forbidden()
+        roots = [props_file] + [t[:-1] for t in extra_targets if t.endswith(".vo")]
+        closure = dep_closure(roots)
+        hits = scan_forbidden(only=closure)
         if hits:
-            res["log"] = "forbidden tokens in Coq development: %r" % (hits[:5],)
+            res["log"] = "forbidden tokens in the Coq files this property depends on: %r" % (hits[:5],)
             self.l1 = res
             return res
+        other = scan_forbidden()
+        if other:
+            self.notes.append("forbidden tokens in files this property does not depend on: %r" % (other[:5],))
+        res["files"] = sorted(closure)
         with Lock("coq"):
             ensure_coq_makefile()
             targets = [props_file + "o"] + [t for t in extra_targets]
